@@ -1,17 +1,22 @@
 """C15 — cache keyed by resourceVersion: prepare once per version, latest wins.
 
 proof:   lean/Koreo/Props/C15.lean over lean/Koreo/Cache.lean
-tie:     random offer / delete / lookup histories through koreo.cache (counting preparers that declare
-         no subscriptions, so no monitor task ever starts) and through the compiled model; observables
-         after every op: returned object (identity as the serial of the preparer call that made it),
-         preparer call count, both lookups of every key
+tie:     random offer / delete / lookup histories through koreo.cache and through the compiled model.
+         Family A (sequential): counting preparers that may DECLARE subscriptions, including ones that
+         close a subscription cycle (the offer then raises SubscriptionCycle after having cached); the
+         event loop never turns between operations, so monitor tasks are created but never run.
+         Observables after every op: returned / prepared object (identity as the serial of the preparer
+         call that made it), preparer call count, both lookups of every key.
+         Family B (loop turns): small histories with acyclic subscriptions and `await sleep(0)` turns so
+         that monitors re-prepare in the background; oracle only (C16 owns the model of monitors).
 oracle:  the property's clauses against a plain dict kept by the harness, independent of the model
 """
 from __future__ import annotations
 
+import asyncio
 import json
 
-from common import Check, Infra, LeanDriver, VERIF, ddmin, rng
+from common import Check, Infra, LeanDriver, VERIF, rng
 
 CORPUS = VERIF / "corpus" / "C15"
 
@@ -42,14 +47,17 @@ class World:
     """one history against the real module"""
 
     def __init__(self, cache, result, kutil):
-        self.cache, self.result = cache, result
+        from koreo import registry
+        self.cache, self.result, self.registry = cache, result, registry
         kutil.reset()
         self.calls = 0
         self.made = []          # objects the preparers returned, index = serial
         self.desc = {}          # id(obj) -> (serial, descriptor)
         self.bad_args = None
 
-    def preparer(self, kind_idx, offered_spec):
+    def preparer(self, kind_idx, offered_spec, subs=()):
+        declared = [self.registry.Resource(resource_type=KINDS[k], name=n) for k, n in subs]
+
         async def prepare(name, spec):
             serial = self.calls
             self.calls += 1
@@ -61,7 +69,7 @@ class World:
                 out = obj
             else:
                 obj = Tok(truthy=serial % 3 != 0)
-                out = (obj, None)
+                out = (obj, declared or None)
             spec["scribbled"] = True     # the preparer owns its copy
             self.made.append(obj)
             self.desc[id(obj)] = (serial, d)
@@ -107,14 +115,30 @@ class World:
             before = self.calls
             try:
                 got = await c.prepare_and_cache(
-                    resource_class=kind, preparer=self.preparer(op["kind"], spec), metadata=meta, spec=spec,
-                    _system_data=None if op["sys"] is None else {"n": op["sys"]})
+                    resource_class=kind, preparer=self.preparer(op["kind"], spec, op.get("subs", ())),
+                    metadata=meta, spec=spec, _system_data=None if op["sys"] is None else {"n": op["sys"]})
             except TypeError:
                 return {"k": "typeError"}, None
+            except self.registry.SubscriptionCycle:
+                # wiring up the declared subscriptions was refused — after the preparation happened
+                if self.calls == before:
+                    return {"k": "raisedCycle", "resource": None, "serial": -1}, None
+                made = self.made[before]
+                d, serial = self.obj(made)
+                return {"k": "raisedCycle", "resource": d, "serial": serial}, made
             d, serial = self.obj(got)
             return {"k": "returned", "resource": d, "serial": serial, "prepared": self.calls > before}, got
         if k == "delete":
             got = await c.delete_from_cache(kind, name, op["version"])
+            return ({"k": "unit"} if got is None else {"k": "unit", "odd": repr(got)}), None
+        if k == "deleteMeta":
+            meta = {"name": name}
+            if op["version"] is not None:
+                meta["resourceVersion"] = op["version"]
+            try:
+                got = await c.delete_resource_from_cache(kind, meta)
+            except TypeError:
+                return {"k": "typeError"}, None
             return ({"k": "unit"} if got is None else {"k": "unit", "odd": repr(got)}), None
         if k == "lookup":
             got = c.get_resource_from_cache(kind, name)
